@@ -145,7 +145,10 @@ def run(ctx):
             rng.shuffle(perm)
             permuted = cost.evaluate(arr[perm])
             singles = np.vstack([cost.evaluate(np.asarray([c])) for c in cuts])
-            if not (bits(again) == bits(vals) and bits(permuted) == bits(vals[perm]) and bits(singles) == bits(vals)):
+            # ... and with some intervals REPEATED in an unsorted batch
+            rep_idx = perm + perm[: max(1, len(perm) // 2)] + perm[-1:]
+            repeated = cost.evaluate(arr[rep_idx])
+            if not (bits(again) == bits(vals) and bits(permuted) == bits(vals[perm]) and bits(singles) == bits(vals) and bits(repeated) == bits(vals[rep_idx])):
                 ctx.violation(f"{name}: the row of an interval depends on the batch it is evaluated in / on earlier calls", inp0,
                               {"what": "batch-dependence", "cost": name.split("(")[0]})
             if not np.array_equal(X, frozen):
